@@ -766,12 +766,23 @@ class AdapterLookupBase:
         super().__init__()
 
     def changed(self, ignored=None):
-        super().changed(None)
-        for r in self._required.keys():
+        # Stop watching the specifications first and drop the caches
+        # afterwards: an answer that gets cached while we are in here
+        # (another thread looking something up, or the destructor of a
+        # value only the caches kept alive) is then either dropped
+        # with the caches or has subscribed again. Entries are taken
+        # out one at a time because such a lookup adds to this very
+        # dictionary, and because two threads can be in here at once.
+        required = self._required
+        while required:
+            try:
+                r, _ = required.popitem()
+            except KeyError:
+                break
             r = r()
             if r is not None:
                 r.unsubscribe(self)
-        self._required.clear()
+        super().changed(None)
 
     # Extendors
     # ---------
